@@ -12,7 +12,8 @@ import (
 //   - all durations are multiples of 10 ms; the prune ticker (2005 ms) never coincides with anything;
 //   - hooks indexed by attempt (`hook`, may fire inside a retry) only when at most one key ever fails
 //     (no two retry items can tie); otherwise only hooks indexed by fresh attempt (`hookf`);
-//   - status-only writes use the guarded `stat` (skipped while our status is Error).
+//   - status-only writes: both the guarded `stat` (skipped while our status is Error) and the unguarded
+//     `statx` (a second reconciler re-stamping an object whose own status is Error; fixed by 8844901).
 func gen(r *hx.Rand, n int, tier string, prop string, out *hx.Out) {
 	// fixed regression shapes first
 	fixed(out)
@@ -54,7 +55,7 @@ func fixed(out *hx.Out) {
 	}
 	out.P("final")
 	// concurrent writes from inside the in-flight Update: update, delete, delete+reinsert, status-only
-	for i, wk := range []string{"put", "del", "reins", "stat", "ref"} {
+	for i, wk := range []string{"put", "del", "reins", "stat", "statx", "ref"} {
 		for _, mode := range []string{"s", "b"} {
 			for _, fail := range []bool{false, true} {
 				out.P("#case fix-inflight-%s-%s-%v-%d", wk, mode, fail, i)
@@ -70,6 +71,26 @@ func fixed(out *hx.Out) {
 				out.P("dump")
 				out.P("final")
 			}
+		}
+	}
+	// foreign status-only write over an Error status while a retry is queued (defect fixed by 8844901):
+	// the retry must still be committed / re-queued
+	for _, mode := range []string{"s", "b"} {
+		for nf := 1; nf <= 3; nf++ {
+			out.P("#case fix-foreign-status-%s-%d", mode, nf)
+			out.P("cfg %s 2 10 40 0 0", mode)
+			for i := 0; i < nf; i++ {
+				out.P("fail 1 %d", i)
+			}
+			out.P("w put 1")
+			out.P("w statx 1")
+			out.P("sleep 20")
+			out.P("w statx 1")
+			out.P("wur cur")
+			out.P("sleep 100")
+			out.P("dump")
+			out.P("wur cur")
+			out.P("final")
 		}
 	}
 	// failed delete followed by re-insert; failed update followed by delete
@@ -127,7 +148,7 @@ func fixed(out *hx.Out) {
 	out.P("final")
 }
 
-var wkinds = []string{"put", "put", "put", "del", "reins", "stat", "ref"}
+var wkinds = []string{"put", "put", "put", "del", "reins", "stat", "statx", "statx", "ref"}
 
 func genCase(r *hx.Rand, prop string, out *hx.Out) {
 	mode := hx.Pick(r, []string{"s", "b"})
